@@ -11,7 +11,7 @@ blocked (no move available) or at the time limit.
 """
 from __future__ import annotations
 
-from typing import Any, Dict, List, Optional, Tuple
+from typing import Any, Dict, List, Tuple
 
 import numpy as np
 
